@@ -215,8 +215,8 @@ Qed.
 Lemma read_command_cc_ok ls no s ln ot s' ln' ls' :
   read_command_cc ls no s ln = Ok (ot, s', ln', ls') -> LI ls -> LI ls'.
 Proof.
-  unfold read_command_cc. intros H I. repeat brk H;
-    injection H as <- <- <- <-; try exact I; eapply read_args_tokens_ok; eassumption.
+  unfold read_command_cc, cc_warn. intros H I. repeat brk H;
+    injection H as <- <- <- <-; try exact I; try (apply lx_add_log_ok, I); eapply read_args_tokens_ok; eassumption.
 Qed.
 Lemma read_cc_ok ls is_c s ln ot s' ln' ls' :
   read_cc ls is_c s ln = Ok (ot, s', ln', ls') -> LI ls -> LI ls'.
